@@ -491,13 +491,12 @@ func standinFrameSplit3(p0, p1, p2, c0, c1, c2, max int) bool {
 // Message.Expires (properties C07, C06): a stored message expires `TTL` SECONDS after the second its id was
 // created in. The time package is outside the verified code: the calls are recorded, and the contract fixes their
 // arguments - Unix(second of the id, 0) and Add(TTL x one second).
-// @ assume (ID).Time iface
 // @ verify (*Message).Expires pre=pre_Message_Expires post=post_Message_Expires props=C07,C06
-func pre_Message_Expires(m *Message) bool { return m != nil }
+func pre_Message_Expires(m *Message) bool { return m != nil && len(m.ID) >= 8 }
 func post_Message_Expires(m *Message, res0 time.Time) bool {
-	t, u, a := vs.TraceFind("ID).Time"), vs.TraceFind("time.Unix"), vs.TraceFind("Time).Add")
-	return t == 0 && u == 1 && a == 2 && vs.TraceLen() == 3 &&
-		vs.TraceArg[int64](u, 0) == vs.TraceRet[int64](t, 0) && vs.TraceArg[int64](u, 1) == 0 &&
+	u, a := vs.TraceFind("time.Unix"), vs.TraceFind("Time).Add")
+	return u == 0 && a == 1 && vs.TraceLen() == 2 &&
+		vs.TraceArg[int64](u, 0) == m.ID.Time() && vs.TraceArg[int64](u, 1) == 0 &&
 		vs.TraceArg[time.Time](a, 0) == vs.TraceRet[time.Time](u, 0) &&
 		vs.TraceArg[time.Duration](a, 1) == time.Duration(m.TTL)*time.Second && res0 == vs.TraceRet[time.Time](a, 0)
 }
